@@ -270,6 +270,10 @@ def build_harness(release=True):
     key = ("dv", release)
     if key in _built:
         return _built[key]
+    if os.environ.get("VERIF_DV_BIN"):
+        # development aid (coverage-instrumented harness); the registered commands never set it
+        _built[key] = os.environ["VERIF_DV_BIN"]
+        return _built[key]
     hd = os.path.join(VERIF, "harness")
     sync_lock(hd)
     cmd = ["cargo", "build", "--offline", "--bin", "dv"] + (["--release"] if release else [])
